@@ -331,3 +331,57 @@ Definition pipe_all_ok_n (tbls : list (string * mtable)) (x : string * c17pipe) 
   let rm := tmatch (table_for tbls (fst x) (cp_rules (snd x))) in
   (negb (String.eqb (fst x) "") || rules_modelled (cp_rules (snd x))) &&
   P_pipe_completed rm (snd x) && P_nospur_strict rm (fun _ => true) (snd x).
+
+(* ---------------------------------------------------------------------------------- *)
+(* Clause 4 below parents present on ONE side only (generator side): the defaults the completion
+   puts below a block that new has and old has not.  Neither side has them as text; whether the
+   patch may carry them is what P_nospur_added asks (it does: Properties/C17.v
+   C17_no_spurious_added_parent_refuted, open finding). *)
+Section OneSided.
+  Variable rmatch : string -> string -> bool.
+
+  (* every default the completion adds inside a subtree, with its parent path *)
+  Fixpoint added_defaults (rs : list irule) (u : tree) (pre : list string) {struct u}
+    : list (list string * string) :=
+    match u with
+    | T ku =>
+      let ms := compiled rmatch rs in
+      flat_map (fun r => if wants_default rmatch ku r then [(pre, i_row r)] else []) rs
+      ++ (fix go (l : forest) : list (list string * string) :=
+            match l with
+            | [] => []
+            | (row, c) :: l' =>
+              match last_match_c ms row with
+              | Some r => added_defaults (i_kids r) c (pre ++ [row])
+              | None => []
+              end ++ go l'
+            end) ku
+    end.
+
+  (* walk new and old together; where a row of new is missing in old, collect the defaults of its subtree *)
+  Fixpoint onesided_defaults (rs : list irule) (u t : tree) (pre : list string) {struct u}
+    : list (list string * string) :=
+    match u with
+    | T ku =>
+      let ms := compiled rmatch rs in
+      (fix go (l : forest) : list (list string * string) :=
+         match l with
+         | [] => []
+         | (row, c) :: l' =>
+           match last_match_c ms row with
+           | Some r =>
+             match lookup row (kids t) with
+             | Some ct => onesided_defaults (i_kids r) c ct (pre ++ [row])
+             | None => added_defaults (i_kids r) c (pre ++ [row])
+             end
+           | None => []
+           end ++ go l'
+         end) ku
+    end.
+
+  Definition P_nospur_added (dl_ok : list string -> bool) (c : c17pipe) : bool :=
+    forallb (fun x : list string * string =>
+               negb (dl_ok (fst x ++ [snd x])) ||
+               negb (existsb (path_eqb (fst x ++ [snd x])) (cp_paths c)))
+            (onesided_defaults (cp_rules c) (T (cp_u c)) (T (cp_t c)) []).
+End OneSided.
